@@ -536,6 +536,7 @@ func (c *Ctx) evalBuiltin(st *State, x *ast.CallExpr, name string) Val {
 	case "clear":
 		v := c.eval(st, x.Args[0])
 		if s, ok := v.(Slice); ok {
+			c.checkWriteRange(st, c.elemPrefix(s.Elem), s.Elem, s.Ref, s.Off, c.iadd(s.Off, s.Len), c.curPos, TTrue)
 			c.havocSliceRange(st, s, func(fam, leaf string, old, nw Term) Term {
 				return c.forallIdx(func(i Term) Term {
 					in := And(c.ile(s.Off, i), c.ilt(i, c.iadd(s.Off, s.Len)))
@@ -624,7 +625,7 @@ func (c *Ctx) evalAppend(st *State, x *ast.CallExpr) Val {
 			str := c.asScalar(c.eval(st, x.Args[1]), at).T
 			n := c.name(app(c.idxSort(), "str.len", str), "n")
 			srt := c.scalarSort(sl.Elem())
-			return c.appendGeneric(st, s, n, func(fam, leaf string, k Term) Term { return app(srt, "str.at", str, k) })
+			return c.appendGeneric2(st, s, n, func(fam, leaf string, k Term) Term { return app(srt, "str.at", str, k) })
 		}
 		src := c.evalSlice(st, x.Args[1])
 		// snapshot source rows (source may alias destination)
@@ -634,7 +635,7 @@ func (c *Ctx) evalAppend(st *State, x *ast.CallExpr) Val {
 		for _, f := range fams {
 			rows[f[0]] = c.name(Select(c.heapGet(st, f[0], f[1]), src.Ref), "srow")
 		}
-		return c.appendGeneric(st, s, src.Len, func(fam, leaf string, k Term) Term { return Select(rows[fam], c.iadd(src.Off, k)) })
+		return c.appendGeneric2(st, s, src.Len, func(fam, leaf string, k Term) Term { return Select(rows[fam], c.iadd(src.Off, k)) })
 	}
 	var elems []Val
 	for _, a := range x.Args[1:] {
@@ -643,7 +644,7 @@ func (c *Ctx) evalAppend(st *State, x *ast.CallExpr) Val {
 	if len(elems) == 0 {
 		return s
 	}
-	return c.appendElems(st, s, elems)
+	return c.appendElems2(st, s, elems)
 }
 
 // appendElems appends explicitly listed elements.
@@ -679,7 +680,7 @@ func (c *Ctx) appendElems(st *State, s Slice, elems []Val) Val {
 	st.pc = re.pc
 	st.assume(c, c.ile(newLen, newCap))
 	if c.mode == ModeBV {
-		st.assume(c, c.ile(newCap, IntLit(bvSort(64), pow2(62))))
+		st.assume(c, c.ile(newCap, IntLit(bvSort(64), pow2(60))))
 		st.assume(c, c.ile(c.idx(0), newLen)) // lengths never overflow int
 	}
 	st.alloc = re.alloc
@@ -734,7 +735,7 @@ func (c *Ctx) appendGeneric(st *State, s Slice, n Term, elemAt func(fam, leaf st
 	newCap := c.declare("ncap", c.idxSort())
 	st.assume(c, c.ile(newLen, newCap))
 	if c.mode == ModeBV {
-		st.assume(c, c.ile(newCap, IntLit(bvSort(64), pow2(62))))
+		st.assume(c, c.ile(newCap, IntLit(bvSort(64), pow2(60))))
 		st.assume(c, c.ile(c.idx(0), newLen))
 	}
 	return Slice{c.nameIfBig(Ite(fits, s.Ref, r), "aref"), c.nameIfBig(Ite(fits, s.Off, c.idx(0)), "aoff"), newLen,
@@ -763,6 +764,7 @@ func (c *Ctx) evalCopy(st *State, x *ast.CallExpr) Val {
 		}
 		elemAt = func(fam, leaf string, k Term) Term { return Select(rows[fam], c.iadd(src.Off, k)) }
 	}
+	c.checkWriteRange(st, c.elemPrefix(dst.Elem), dst.Elem, dst.Ref, dst.Off, c.iadd(dst.Off, n), c.curPos, TTrue)
 	c.havocSliceRange(st, dst, func(fam, leaf string, old, nw Term) Term {
 		return c.forallIdx(func(i Term) Term {
 			in := And(c.ile(dst.Off, i), c.ilt(i, c.iadd(dst.Off, n)))
